@@ -2,6 +2,8 @@ import Driver.Proto
 import Driver.Msg
 import Driver.Names
 import Driver.Codecs
+import Driver.Send
+import Driver.Client
 /-
   udsdrv: one request per line on stdin, one answer per line on stdout.  Imports Model and Spec only.
 -/
@@ -11,6 +13,8 @@ def dispatch (cmd : String) (a : Args) : Except String String :=
   if cmd.startsWith "req." || cmd.startsWith "resp." || cmd == "rc" || cmd.startsWith "svc." then Drv.Msg.run cmd a
   else if cmd.startsWith "spec.did" || cmd.startsWith "spec.rid" || cmd == "spec.subfn" || cmd == "spec.first" then Drv.Names.run cmd a
   else if cmd.startsWith "codec." then Drv.Codecs.run cmd a
+  else if cmd == "send" then Drv.Send.run cmd a
+  else if cmd == "deliver" || cmd == "sendd" then Drv.Client.run cmd a
   else throw s!"unknown command {cmd}"
 
 partial def loop (hin hout : IO.FS.Stream) : IO Unit := do
